@@ -42,6 +42,7 @@ var classList = []string{
 	"unary:value", "unary:void", "unary:error", "unary:panic", "unary:two-batches", "describe",
 	"unary:unknown-method", "unary:no-method-key", "unary:bad-version", "unary:no-version", "unary:rows0", "unary:rows2",
 	"unary:param-mismatch", "unary:proto-refused",
+	"unary:odd-metadata", "unary:no-columns", // domain-audit probes
 	"stream:complete", "stream:early-eos", "stream:zero-inputs", "stream:cancel", "stream:not-castable",
 	"stream:init-error", "stream:init-panic", "stream:init-nil", "stream:init-badstate",
 	"stream:turn-error", "stream:turn-panic", "stream:turn-none",
@@ -61,6 +62,7 @@ type step struct {
 	CancelAt  int             `json:"cancel_at"`
 	Pipelined bool            `json:"pipelined,omitempty"`
 	RequestID string          `json:"request_id"`
+	OddMeta   [][2]string     `json:"odd_metadata,omitempty"`
 }
 
 type history struct {
@@ -79,7 +81,9 @@ func genStep(r *mon.Run, h *history, j int, class string) step {
 	if h.ProtoSet {
 		st.Proto = goodProto
 	}
-	badProto := func() string { return []string{"", "2.0.0", "1.3.9", "1.4", "abc"}[rg.IntN(5)] }
+	badProto := func() string {
+		return []string{"", "2.0.0", "1.3.9", "1.4", "abc", "99999999999999999999.4.2", "1.4.2.1", " 1.4.2", "1.04.2", "-1.4.2"}[rg.IntN(10)]
+	}
 	if strings.HasPrefix(class, "unary:") || class == "describe" {
 		st.Method = svc.UnaryMethods[rg.IntN(len(svc.UnaryMethods)-1)] // not u_void unless asked
 		act := svc.ActValue
@@ -99,13 +103,27 @@ func genStep(r *mon.Run, h *history, j int, class string) step {
 				st.Method = svc.StreamMethods[rg.IntN(len(svc.StreamMethods))]
 			}
 		case "unary:unknown-method":
-			st.Method = []string{"no_such_method", "u_strx", "", "p_plainn"}[rg.IntN(4)]
+			st.Method = []string{"no_such_method", "u_strx", "", "p_plainn", "\xffnot\xfeutf8", strings.Repeat("long_method_name_", 256), "u_str\x00", "__describe__x"}[rg.IntN(8)]
 		case "unary:param-mismatch":
 			st.PVariant = svc.ParamVariants[1+rg.IntN(len(svc.ParamVariants)-1)]
 		case "unary:proto-refused":
 			st.Proto = badProto()
 		case "describe":
 			st.Method = "__describe__"
+		case "unary:odd-metadata":
+			// an otherwise valid request that also carries keys the framework
+			// uses elsewhere (or garbage values for keys it reads here)
+			st.OddMeta = [][][2]string{
+				{{wire.KeyCancel, "true"}},
+				{{wire.KeyStreamState, "AAAA"}, {wire.KeyCallState, "BBBB"}},
+				{{wire.KeyLogMessage, "not a log"}, {wire.KeyServerID, "someone-else"}, {wire.KeyErrorKind, "x"}},
+				{{"vgi_rpc.shm_segment_name", "/no-such-segment"}, {"vgi_rpc.shm_segment_size", "1048576"}},
+				{{"vgi_rpc.shm_segment_name", "/x"}, {"vgi_rpc.shm_segment_size", "not-a-number"}},
+				{{wire.KeyShmOffset, "0"}, {wire.KeyShmLength, "8"}},
+				{{wire.KeyLocation, "http://127.0.0.1:9/nothing"}},
+				{{"traceparent", "00-zz-zz-00"}, {"tracestate", "\xff"}},
+				{{wire.KeyMethod, "u_void"}}, // the method key twice
+			}[rg.IntN(9)]
 		}
 		st.Script = svc.GenUnary(rg, id, act, 4)
 		return st
@@ -366,9 +384,11 @@ func (e *env) doStep(c *wire.Conn, h history, st step) *failure {
 			q.Params = svc.ParamsBatchRows(st.Script, st.Args, 2)
 		case "unary:param-mismatch":
 			q.Params = svc.ParamsBatchVariant(st.Script, st.Args, st.PVariant)
+		case "unary:no-columns": // zero-column request batch for a method that has parameters
 		default:
 			q.Params = svc.ParamsBatch(st.Script, st.Args)
 		}
+		q.ExtraMeta = st.OddMeta
 		switch st.Class {
 		case "unary:no-method-key":
 			q.NoMethod = true
@@ -396,6 +416,19 @@ func (e *env) doStep(c *wire.Conn, h history, st step) *failure {
 			got := svc.EventsOf(svc.FromLog(e.log.Since(mark)), st.Script.ID)
 			if msg := svc.MatchEvents(pred.Events, got); msg != "" {
 				return &failure{sig: "response:invocations", what: msg, wit: map[string]any{"observed": obs}}
+			}
+		case "unary:odd-metadata":
+			// what the extra keys mean is not C02's business; the request must
+			// be ANSWERED (its value, or exactly one exception) and leave the
+			// session in frame (the sentinel decides that)
+			pred := svc.Model(st.Script, svc.Call{Method: st.Method, Args: st.Args, RequestID: st.RequestID})
+			if bad := svc.Match(pred, nil, &obs, svc.MatchOpt{}); len(bad) > 0 {
+				if msg := errorOnly(&obs); msg != "" {
+					return &failure{sig: "response:neither-value-nor-single-exception", what: bad[0] + " / " + msg, wit: map[string]any{"observed": obs}}
+				}
+				e.r.Count("odd-metadata.answered-with-exception."+st.OddMeta[0][0], 1)
+			} else {
+				e.r.Count("odd-metadata.answered-with-value."+st.OddMeta[0][0], 1)
 			}
 		case "describe":
 			if !obs.Complete || obs.HasError() || len(obs.OfKind(wire.KindData)) != 1 {
